@@ -115,6 +115,7 @@ type rpcCall struct {
 	errCode  codes.Code
 	errMsg   string
 	detail   []byte // serialized status details (P4 errors)
+	cancelled bool  // the client gave the call up (context done) before it completed
 }
 
 type RPCFaults struct {
@@ -167,6 +168,7 @@ func rpcWait(ctx context.Context, c *rpcCall) ([]byte, error, []byte) {
 		return false
 	})
 	if ctxErr {
+		rpcCancelled(c)
 		if ctx.Err() == context.DeadlineExceeded {
 			return nil, status.Error(codes.DeadlineExceeded, "context deadline exceeded"), nil
 		}
@@ -177,6 +179,9 @@ func rpcWait(ctx context.Context, c *rpcCall) ([]byte, error, []byte) {
 	}
 	return resp, nil, nil
 }
+
+//go:norace
+func rpcCancelled(c *rpcCall) { vsim.Call(func() { c.cancelled = true }) }
 
 // ---------------------------------------------------------------- BESS model
 
@@ -221,6 +226,10 @@ type SimBESS struct {
 	w      *World
 	State  connectivity.State
 	Faults RPCFaults
+	// DropCancelled: a call the client has given up (context cancelled / deadline)
+	// before the daemon got to it is not applied (RST_STREAM overtakes the handler);
+	// default: the daemon applies what it has received
+	DropCancelled bool
 
 	PDR   map[string]*WCEntry            // key: masked values + masks
 	FAR   map[string]*EMEntry            // key: fields
@@ -465,6 +474,12 @@ func (b *SimBESS) submit(reqBytes []byte, inc int) *rpcCall {
 	s.After(d1, func() {
 		var req pb.CommandRequest
 		var out []byte
+		if c.cancelled && b.DropCancelled {
+			b.Fired["bess-cancelled-call-dropped"]++
+			c.errCode, c.errMsg = codes.Canceled, "cancelled before the daemon got to it"
+			c.done = true
+			return
+		}
 		if err := proto.Unmarshal(reqBytes, &req); err != nil {
 			c.errCode, c.errMsg = codes.Internal, "unmarshal"
 		} else {
